@@ -132,7 +132,7 @@ def run(chk):
     b = core.standard_build(chk)
     model = core.Model() if b.modelrun_ok else None
     full = chk.tier == 'thorough' or bool(b.drift) or not b.proof_ok
-    n = 500 if full else 60
+    n = core.budget(chk, full, 80, 500)
     chk.rule = ('generated **kern documents (two thirds kern-only, one third mixed and exported with spine_types=[**kern]; with / '
                 'without opening barline, pickup, final barline; splits, comments; every 10th with signatures in some spines only) x '
                 'EVERY pair 1 <= a <= b <= M, the partition of the full export by the single-measure exports, iteration, and five '
